@@ -241,7 +241,7 @@ func (m *monitor) check(s *core.Sess, ts tableSpec, hist []string, step int, sea
 	case res.TimedOut:
 		r.Inconclusive("watchdog")
 	case res.Err != nil:
-		r.Violation("match-filter-error:"+res.ErrClass()+":"+core.StripVolatile(res.Err.Error()), wit(qa, res.Err.Error()))
+		r.Violation(g12lib.NoSpace("match-filter-error:"+res.ErrClass()+":"+core.StripVolatile(res.Err.Error())), wit(qa, res.Err.Error()))
 	default:
 		var got []string
 		for _, rw := range res.Rows {
@@ -269,7 +269,7 @@ func (m *monitor) check(s *core.Sess, ts tableSpec, hist []string, step int, sea
 	case res.TimedOut:
 		r.Inconclusive("watchdog")
 	case res.Err != nil:
-		r.Violation("match-relevance-error:"+res.ErrClass()+":"+core.StripVolatile(res.Err.Error()), wit(qb, res.Err.Error()))
+		r.Violation(g12lib.NoSpace("match-relevance-error:"+res.ErrClass()+":"+core.StripVolatile(res.Err.Error())), wit(qb, res.Err.Error()))
 	default:
 		var pos []string
 		bad := false
@@ -311,7 +311,7 @@ func (m *monitor) check(s *core.Sess, ts tableSpec, hist []string, step int, sea
 		case res.TimedOut:
 			r.Inconclusive("watchdog")
 		case res.Err != nil:
-			r.Violation("match-order-error:"+res.ErrClass()+":"+core.StripVolatile(res.Err.Error()), wit(qc, res.Err.Error()))
+			r.Violation(g12lib.NoSpace("match-order-error:"+res.ErrClass()+":"+core.StripVolatile(res.Err.Error())), wit(qc, res.Err.Error()))
 		default:
 			gs := map[string]bool{}
 			for _, rw := range res.Rows {
